@@ -692,11 +692,10 @@ def _current_flow() -> Tuple[int, int]:
     # A program which has not imported asyncio can not be running in an asyncio task.
     asyncio_module = sys.modules.get("asyncio", None)
     if asyncio_module is not None:
-        try:
-            task = asyncio_module.current_task()
-        except RuntimeError:
-            # There is no running event loop in this thread.
-            task = None
+        # ``current_task()`` raises if no event loop is running in this thread, which is expensive.
+        loop = asyncio_module._get_running_loop()  # pylint: disable=protected-access
+        if loop is not None:
+            task = asyncio_module.current_task(loop)
 
     return (threading.get_ident(), 0 if task is None else id(task))
 
@@ -820,7 +819,7 @@ def decorate_with_checker(func: CallableT) -> CallableT:
             if _is_in_progress(in_progress, flow, id_of_func):
                 return await func(*args, **kwargs)
 
-            mark = _Mark(flow=flow, target=id_of_func)
+            mark = _Mark(flow, id_of_func)
 
             # Use try-finally instead of ExitStack for performance.
             try:
@@ -871,7 +870,7 @@ def decorate_with_checker(func: CallableT) -> CallableT:
             if not postconditions:
                 return result
 
-            mark = _Mark(flow=flow, target=id_of_func)
+            mark = _Mark(flow, id_of_func)
 
             try:
                 _IN_PROGRESS.set(in_progress | {mark})
@@ -916,7 +915,7 @@ def decorate_with_checker(func: CallableT) -> CallableT:
             if _is_in_progress(in_progress, flow, id_of_func):
                 return func(*args, **kwargs)
 
-            mark = _Mark(flow=flow, target=id_of_func)
+            mark = _Mark(flow, id_of_func)
 
             # Use try-finally instead of ExitStack for performance.
             try:
@@ -971,7 +970,7 @@ def decorate_with_checker(func: CallableT) -> CallableT:
             if not postconditions:
                 return result
 
-            mark = _Mark(flow=flow, target=id_of_func)
+            mark = _Mark(flow, id_of_func)
 
             try:
                 _IN_PROGRESS.set(in_progress | {mark})
@@ -1195,7 +1194,7 @@ def _decorate_with_invariants(func: CallableT, is_init: bool) -> CallableT:
                 # fully constructed, so the invariants are checked by the outermost constructor only.
                 return func(*args, **kwargs)
 
-            mark = _Mark(flow=flow, target=id(instance))
+            mark = _Mark(flow, id(instance))
             _IN_PROGRESS.set(in_progress | {mark})
 
             # ExitStack is not used here due to performance.
@@ -1256,7 +1255,7 @@ def _decorate_with_invariants(func: CallableT, is_init: bool) -> CallableT:
                 # we need to suspend any further invariant check to avoid endless recursion.
                 flow = _current_flow()
                 if not _is_in_progress(in_progress, flow, id(instance)):
-                    mark = _Mark(flow=flow, target=id(instance))
+                    mark = _Mark(flow, id(instance))
                     _IN_PROGRESS.set(in_progress | {mark})
                 else:
                     # Do not check any invariants to avoid endless recursion.
@@ -1312,7 +1311,7 @@ def _decorate_with_invariants(func: CallableT, is_init: bool) -> CallableT:
 
                 flow = _current_flow()
                 if not _is_in_progress(in_progress, flow, id(instance)):
-                    mark = _Mark(flow=flow, target=id(instance))
+                    mark = _Mark(flow, id(instance))
                     _IN_PROGRESS.set(in_progress | {mark})
                 else:
                     # Do not check any invariants to avoid endless recursion.
